@@ -225,7 +225,8 @@ func GenerateContext(values []float64) *Context {
 
 	distinctCount := 1
 	for i := range values {
-		if i > 0 && values[i] != values[i-1] {
+		// compare bit patterns: 0 and -0 are different values, identical NaNs are the same value
+		if i > 0 && math.Float64bits(values[i]) != math.Float64bits(values[i-1]) {
 			distinctCount++
 		}
 
